@@ -19,10 +19,18 @@ M = 9
 TYPES = ["PROTOCOL", "FUNCTIONAL-GROUP", "BASE-VARIANT", "ECU-VARIANT", "ECU-SHARED-DATA"]
 PLURAL = ["PROTOCOLS", "FUNCTIONAL-GROUPS", "BASE-VARIANTS", "ECU-VARIANTS", "ECU-SHARED-DATAS"]
 PRIO = {0: 1, 1: 2, 2: 3, 3: 4, 4: 100}
-CATS = ["diag_comms", "dops", "gnrs", "funct_classes", "audiences"]
+CATS = ["diag_comms", "dops", "gnrs", "funct_classes", "audiences", "structures", "muxs", "tables"]
 EXCL_TAG = {"diag_comms": ("NOT-INHERITED-DIAG-COMMS", "NOT-INHERITED-DIAG-COMM", "DIAG-COMM-SNREF"),
             "dops": ("NOT-INHERITED-DOPS", "NOT-INHERITED-DOP", "DOP-BASE-SNREF"),
+            "tables": ("NOT-INHERITED-TABLES", "NOT-INHERITED-TABLE", "TABLE-SNREF"),
             "gnrs": ("NOT-INHERITED-GLOBAL-NEG-RESPONSES", "NOT-INHERITED-GLOBAL-NEG-RESPONSE", "GLOBAL-NEG-RESPONSE-SNREF")}
+# NOT-INHERITED-DOPS names DOP-BASE objects of any kind (simple data objects, structures, multiplexers, ...);
+# NOT-INHERITED-TABLES names tables only
+EXCL_OF = {"structures": "dops", "muxs": "dops"}
+
+
+def excl_of(p, cat):
+    return p["excl"].get(EXCL_OF.get(cat, cat), [])
 
 
 def gen_hierarchy(rng, nmax=5, names=3):
@@ -37,6 +45,9 @@ def gen_hierarchy(rng, nmax=5, names=3):
                 excl = {c: sorted(set(rng.choice(range(1, names + 1)) for _ in range(rng.choice([0, 0, 1, 2])))) for c in EXCL_TAG}
                 parents.append(dict(target=j, excl=excl))
         locs = {c: sorted(set(rng.choice(range(1, names + 1)) for _ in range(rng.choice([0, 1, 1, 2])))) for c in CATS}
+        for c in ("structures", "muxs", "tables"):
+            if rng.random() < 0.5:
+                locs[c] = []
         # which local diag comms are single ECU jobs (the others are services); unit groups: name -> content (objects
         # without an id: two layers may define EQUAL ones)
         jobs = [x for x in locs["diag_comms"] if rng.random() < 0.3]
@@ -55,19 +66,32 @@ def emit(layers):
             tl = layers[p["target"]]
             ex = ""
             for c, (a, b, d) in EXCL_TAG.items():
-                if p["excl"][c]:
-                    ex += f"<{a}>" + "".join(f'<{b}><{d} SHORT-NAME="n{x}"/></{b}>' for x in p["excl"][c]) + f"</{a}>"
+                if p["excl"].get(c):
+                    ex += f"<{a}>" + "".join(f'<{b}><{d} SHORT-NAME="n{x}"/></{b}>' for x in p["excl"].get(c, [])) + f"</{a}>"
             prefs += f'<PARENT-REF ID-REF="L{tl["id"]}" DOCREF="DLC" DOCTYPE="CONTAINER" xsi:type="{TYPES[tl["type"]]}-REF">{ex}</PARENT-REF>'
         loc = L["locals"]
         fcs = "".join(f'<FUNCT-CLASS ID="{nm}.fc{x}"><SHORT-NAME>n{x}</SHORT-NAME></FUNCT-CLASS>' for x in loc["funct_classes"])
         dops = "".join(f'<DATA-OBJECT-PROP ID="{nm}.dop{x}"><SHORT-NAME>n{x}</SHORT-NAME><COMPU-METHOD><CATEGORY>IDENTICAL</CATEGORY></COMPU-METHOD>'
                        f'<DIAG-CODED-TYPE BASE-DATA-TYPE="A_UINT32" xsi:type="STANDARD-LENGTH-TYPE"><BIT-LENGTH>8</BIT-LENGTH></DIAG-CODED-TYPE>'
                        f'<PHYSICAL-TYPE BASE-DATA-TYPE="A_UINT32"/></DATA-OBJECT-PROP>' for x in loc["dops"])
+        structs = "".join(f'<STRUCTURE ID="{nm}.st{x}"><SHORT-NAME>n{x}</SHORT-NAME></STRUCTURE>' for x in loc.get("structures", []))
+        muxs = "".join(f'<MUX ID="{nm}.mux{x}"><SHORT-NAME>n{x}</SHORT-NAME><BYTE-POSITION>1</BYTE-POSITION><SWITCH-KEY>'
+                       f'<BYTE-POSITION>0</BYTE-POSITION><DATA-OBJECT-PROP-REF ID-REF="{nm}.kdop"/></SWITCH-KEY></MUX>'
+                       for x in loc.get("muxs", []))
+        if muxs:
+            # the switch key's data object ("k..." names are not part of the generated name space n1..n3)
+            dops += (f'<DATA-OBJECT-PROP ID="{nm}.kdop"><SHORT-NAME>k{L["id"]}</SHORT-NAME><COMPU-METHOD><CATEGORY>IDENTICAL</CATEGORY></COMPU-METHOD>'
+                     f'<DIAG-CODED-TYPE BASE-DATA-TYPE="A_UINT32" xsi:type="STANDARD-LENGTH-TYPE"><BIT-LENGTH>8</BIT-LENGTH></DIAG-CODED-TYPE>'
+                     f'<PHYSICAL-TYPE BASE-DATA-TYPE="A_UINT32"/></DATA-OBJECT-PROP>')
+        tables = "".join(f'<TABLE ID="{nm}.tab{x}"><SHORT-NAME>n{x}</SHORT-NAME></TABLE>' for x in loc.get("tables", []))
         jobs = L.get("jobs", [])
+        # (IS-FINAL / IS-MANDATORY / IS-EXECUTABLE are attributes of the object; they have no influence on what a layer sees)
+        flags = lambda x: ((' IS-FINAL="true"' if (L["id"] + x) % 3 == 0 else "") + (' IS-MANDATORY="true"' if (L["id"] + 2 * x) % 4 == 0 else "") +
+                           (' IS-EXECUTABLE="false"' if (2 * L["id"] + x) % 5 == 0 else ""))
         svcs = "".join(
-            (f'<SINGLE-ECU-JOB ID="{nm}.svc{x}"><SHORT-NAME>n{x}</SHORT-NAME><PROG-CODES><PROG-CODE><CODE-FILE>job.jar</CODE-FILE>'
+            (f'<SINGLE-ECU-JOB ID="{nm}.svc{x}"{flags(x)}><SHORT-NAME>n{x}</SHORT-NAME><PROG-CODES><PROG-CODE><CODE-FILE>job.jar</CODE-FILE>'
              f'<SYNTAX>JAR</SYNTAX><REVISION>1</REVISION></PROG-CODE></PROG-CODES></SINGLE-ECU-JOB>') if x in jobs else
-            f'<DIAG-SERVICE ID="{nm}.svc{x}"><SHORT-NAME>n{x}</SHORT-NAME><REQUEST-REF ID-REF="{nm}.rq{x}"/></DIAG-SERVICE>'
+            f'<DIAG-SERVICE ID="{nm}.svc{x}"{flags(x)}><SHORT-NAME>n{x}</SHORT-NAME><REQUEST-REF ID-REF="{nm}.rq{x}"/></DIAG-SERVICE>'
             for x in loc["diag_comms"])
         ugs = "".join(f"<UNIT-GROUP><SHORT-NAME>n{x}</SHORT-NAME><CATEGORY>{cat}</CATEGORY></UNIT-GROUP>"
                       for x, cat in sorted(L.get("unit_groups", {}).items()))
@@ -80,8 +104,10 @@ def emit(layers):
         auds = "".join(f'<ADDITIONAL-AUDIENCE ID="{nm}.aud{x}"><SHORT-NAME>n{x}</SHORT-NAME></ADDITIONAL-AUDIENCE>' for x in loc["audiences"])
         body = (f"<SHORT-NAME>{nm}</SHORT-NAME>" + (f"<FUNCT-CLASSS>{fcs}</FUNCT-CLASSS>" if fcs else "") +
                 (("<DIAG-DATA-DICTIONARY-SPEC>" + (f"<DATA-OBJECT-PROPS>{dops}</DATA-OBJECT-PROPS>" if dops else "") +
-                  (f"<UNIT-SPEC><UNIT-GROUPS>{ugs}</UNIT-GROUPS></UNIT-SPEC>" if ugs else "") + "</DIAG-DATA-DICTIONARY-SPEC>")
-                 if dops or ugs else "") +
+                  (f"<STRUCTURES>{structs}</STRUCTURES>" if structs else "") + (f"<MUXS>{muxs}</MUXS>" if muxs else "") +
+                  (f"<UNIT-SPEC><UNIT-GROUPS>{ugs}</UNIT-GROUPS></UNIT-SPEC>" if ugs else "") +
+                  (f"<TABLES>{tables}</TABLES>" if tables else "") + "</DIAG-DATA-DICTIONARY-SPEC>")
+                 if dops or ugs or structs or muxs or tables else "") +
                 (f"<DIAG-COMMS>{svcs}</DIAG-COMMS>" if svcs else "") + (f"<REQUESTS>{reqs}</REQUESTS>" if reqs else "") +
                 (f"<GLOBAL-NEG-RESPONSES>{gnrs}</GLOBAL-NEG-RESPONSES>" if gnrs else "") +
                 (f"<ADDITIONAL-AUDIENCES>{auds}</ADDITIONAL-AUDIENCES>" if auds else "") +
@@ -126,7 +152,11 @@ def views_of_db(db):
         us = dl.diag_data_dictionary_spec.unit_spec if dl.diag_data_dictionary_spec is not None else None
         out["unit_groups"][i] = sorted([o.short_name[1:], o.category.value] for o in (us.unit_groups if us is not None else []))
         out["diag_comms"][i] = [[int(o.short_name[1:]), src_of(o)] for o in dl.diag_comms]
-        out["dops"][i] = [[int(o.short_name[1:]), src_of(o)] for o in dl.diag_data_dictionary_spec.data_object_props]
+        ddds = dl.diag_data_dictionary_spec
+        out["dops"][i] = [[int(o.short_name[1:]), src_of(o)] for o in ddds.data_object_props if o.short_name.startswith("n")]
+        out["structures"][i] = [[int(o.short_name[1:]), src_of(o)] for o in ddds.structures]
+        out["muxs"][i] = [[int(o.short_name[1:]), src_of(o)] for o in ddds.muxs]
+        out["tables"][i] = [[int(o.short_name[1:]), src_of(o)] for o in ddds.tables]
         out["gnrs"][i] = [[int(o.short_name[1:]), src_of(o)] for o in dl.global_negative_responses]
         out["funct_classes"][i] = [[int(o.short_name[1:]), src_of(o)] for o in
                                    getattr(dl, "functional_classes", dl.diag_layer_raw.functional_classes)]
@@ -173,7 +203,7 @@ def check_refresh_history(ck, layers, db):
 
 
 def w_hier(layers, cat):
-    return [[L["id"], L["type"], [[p["target"], p["excl"].get(cat, [])] for p in L["parents"]], L["locals"][cat]] for L in layers]
+    return [[L["id"], L["type"], [[p["target"], excl_of(p, cat)] for p in L["parents"]], L["locals"].get(cat, [])] for L in layers]
 
 
 def spec_visible(layers, cat):
@@ -195,11 +225,11 @@ def spec_visible(layers, cat):
                 return "conflict"
             pr = PRIO[layers[p["target"]]["type"]]
             for n, s in pv.items():
-                if n in p["excl"].get(cat, []):
+                if n in excl_of(p, cat):
                     continue
                 cands.setdefault(n, []).append((pr, s))
         for n, lst in cands.items():
-            if n in L["locals"][cat]:
+            if n in L["locals"].get(cat, []):
                 continue
             top = max(pr for pr, _ in lst)
             srcs = {s for pr, s in lst if pr == top}
@@ -207,7 +237,7 @@ def spec_visible(layers, cat):
                 memo[i] = "conflict"
                 return "conflict"
             res[n] = srcs.pop()
-        for n in L["locals"][cat]:
+        for n in L["locals"].get(cat, []):
             res[n] = i
         memo[i] = res
         return res
